@@ -301,6 +301,30 @@ theorem idle_zero (cap : Nat) (kinds : List Life.Kind) (s : Life.St)
   have := hall i s.evs[i] (by simp [hlt])
   rcases this with h | h <;> simp [Life.live, h]
 
+/-- **held_event_keeps_processor**: while an action holds an event (or an event is being worked on) a
+    processor stays on the stream — `processEvent` returns only when NO action is busy, whichever action
+    consumed the last event — so the next event or the stream time-out reaches the holder: `propagate`
+    is enabled, and the held pool event cannot be stranded. (A processor that left because only the LAST
+    action was not busy would make `detachProc` enabled here, and the idle pipeline would keep in-use = 1:
+    witness replayed on the implementation by `c05.chain … h q`.) -/
+theorem held_event_keeps_processor (cap : Nat) (kinds : List Life.Kind) (s : Life.St) (i : Nat) (e : Life.Ev)
+    (h : TS.Reachable Life.step? (Life.init cap kinds) s) (hi : s.evs[i]? = some e) (hh : e.pc = .held) :
+    s.attached = true ∧ Life.step? s .detachProc = none ∧ (Life.step? s (.propagate i)).isSome = true := by
+  have inv := Life.inv_reachable cap kinds s h
+  have hpos : 0 < s.evs.countP Life.needsProc :=
+    countP_pos_of_get Life.needsProc s.evs i e hi (by simp [Life.needsProc, hh])
+  have ha := inv.att hpos
+  refine ⟨ha, ?_, ?_⟩
+  · simp only [Life.step?]; split
+    · omega
+    · rfl
+  · simp [Life.step?, hi, hh, ha]
+
+/-- non-vacuity: an event is held, the next one is dropped by another action, the processor stays -/
+example : ∃ s e, TS.run Life.step? (Life.init 2 [.hold, .discard])
+      [.get 0, .stream 0, .take 0, .hold 0, .get 1, .stream 1, .take 1, .discard 1] = some s ∧
+    s.evs[0]? = some e ∧ e.pc = .held ∧ s.inUse = 1 := ⟨_, _, rfl, rfl, by decide⟩
+
 /-- non-vacuity: capacity 1, a held event that is propagated and committed, then a refused one -/
 example : ∃ s, TS.run Life.step? (Life.init 1 [.hold, .refused])
       (Life.script 0 .hold ++ Life.script 1 .refused) = some s ∧ s.inUse = 0 ∧
